@@ -44,6 +44,8 @@ class _ObjClasses(dict):
             self["Tokenizer"] = (TK.Tokenizer, ["source", "position", "next_token"])
             self["Token"] = (TK.Token, ["name", "text", "position"])
             self["ParsedRequirement"] = (PA.ParsedRequirement, list(PA.ParsedRequirement._fields))
+            from packaging import metadata as MD
+            self["_Validator"] = (MD._Validator, ["name", "raw_name", "added"])
 
     def __contains__(self, k):
         self._load()
@@ -77,6 +79,8 @@ def enc_val(v) -> str:
     if isinstance(v, list):
         return "L[" + ",".join(enc_val(x) for x in v) + "]"
     tn = type(v).__name__
+    if tn in OPAQUE_CLASSES:                      # x3: objects of other libraries / untracked classes, known by class and text
+        return "Oopaque{cls=" + enc_val(tn) + ",str=" + enc_val(str(v)) + "}"
     if tn == "NegativeInfinityType":
         return "m"
     if tn == "InfinityType":
@@ -90,6 +94,9 @@ def enc_val(v) -> str:
     if isinstance(v, types.GeneratorType) or (hasattr(v, "__next__") and hasattr(v, "__iter__")):
         return "I[" + ",".join(enc_val(x) for x in v) + "]"
     raise TypeError(f"no wire form for {type(v).__name__}")
+
+
+OPAQUE_CLASSES = {"SpecifierSet", "Requirement", "PurePosixPath", "PureWindowsPath"}
 
 
 class _P:
@@ -577,6 +584,130 @@ def _record(module_name, names, fn, args):
     return out
 
 
+def _record_dotted(module_name, names, fn, args):
+    """like `_record`, for oracle names reached through a module attribute (`utils.canonicalize_name`,
+    `pathlib.PurePosixPath`) and for methods of the objects those constructors return (`PurePosixPath.is_absolute`):
+    the function is replaced in its home module, methods are shadowed on their class, for the duration of the call"""
+    import copy
+    import inspect
+    mod = importlib.import_module(module_name)
+    rec = Oracle()
+    undo = []
+
+    def wrap(name, real, drop_self=False):
+        def w(*a, **k):
+            try:
+                sig = inspect.signature(real)
+                if any(p_.kind in (p_.VAR_POSITIONAL, p_.VAR_KEYWORD) for p_ in sig.parameters.values()):
+                    raise TypeError
+                b = sig.bind(*a, **k)
+                b.apply_defaults()
+                key = tuple(copy.copy(x) for x in b.arguments.values())
+            except (TypeError, ValueError):
+                key = tuple(a)
+            try:
+                r = real(*a, **k)
+            except Exception as e:
+                rec.append((name, key, Raise(type(e).__name__)))
+                raise
+            rec.append((name, key, r))
+            return r
+        return w
+
+    classes = {}
+    for n in names:
+        if "." not in n or n == "str.lower":
+            continue
+        head, attr = n.split(".", 1)
+        holder = getattr(mod, head, None)
+        if holder is not None and inspect.ismodule(holder):
+            real = getattr(holder, attr)
+            if isinstance(real, type):
+                classes[real.__name__] = real
+                ctor = wrap(n, real)
+                setattr(holder, attr, ctor)
+            else:
+                setattr(holder, attr, wrap(n, real))
+            undo.append((holder, attr, real, True))
+    for n in names:
+        if "." in n and n.split(".", 1)[0] in classes:
+            cls = classes[n.split(".", 1)[0]]
+            attr = n.split(".", 1)[1]
+            real = getattr(cls, attr)
+            had = attr in cls.__dict__
+            setattr(cls, attr, wrap(n, real))
+            undo.append((cls, attr, real, had))
+    try:
+        try:
+            fn(*copy.deepcopy(args))
+        except Exception:
+            pass
+    finally:
+        for holder, attr, real, had in reversed(undo):
+            if had:
+                setattr(holder, attr, real)
+            else:
+                delattr(holder, attr)
+    if "str.lower" in names:                    # `str.lower` cannot be intercepted: tabulate it for every string in sight
+        def strings(v):
+            if isinstance(v, str):
+                yield v
+            elif isinstance(v, (list, tuple)):
+                for x in v:
+                    yield from strings(x)
+        for x in strings(list(args)):
+            rec.append(("str.lower", (x,), x.lower()))
+    out = Oracle()
+    seen = set()
+    for e in rec:
+        k = enc_val(e[0]) + enc_val(e[1])
+        if k not in seen:
+            seen.add(k)
+            out.append(e)
+    return out
+
+
+METADATA_ORACLES = ["utils.canonicalize_name", "version_module.parse", "specifiers.SpecifierSet", "requirements.Requirement",
+                    "licenses.canonicalize_license_expression", "pathlib.PurePosixPath", "pathlib.PureWindowsPath",
+                    "PurePosixPath.is_absolute", "PureWindowsPath.is_absolute", "PureWindowsPath.as_posix", "str.lower"]
+
+
+def _g_validator(field, wrong=("", None, [], ["x"], "x")):
+    def g(rng):
+        from packaging import metadata as MD
+        from gen import metadata as GM
+        good, bad, esc = GM.POOLS[field]
+        r = rng.random()
+        if r < 0.5 and good:
+            v = rng.choice(good)
+        elif r < 0.85 and bad:
+            v = rng.choice(bad)
+        elif r < 0.93 and esc:
+            v = rng.choice(esc)
+        else:
+            v = rng.choice(good or bad)
+        if isinstance(v, str) and any(0xD800 <= ord(c) <= 0xDFFF for c in v):
+            v = "x"
+        self_ = MD.Metadata.__dict__[field]
+        name = "_Validator._process_" + field
+        f = _resolve(*FUNCS[name][:2])
+        if name not in EXT_FUNCS:
+            return [self_, v]
+        return [_record_dotted("packaging.metadata", METADATA_ORACLES, f, [self_, v]), self_, v]
+    return g
+
+
+def _g_parse_keywords(rng):
+    from gen import metadata as GM
+    return [rng.choice(["a,b", "", ",", " a , b ,c", "one", "a,,b", "\u2003x\u2003,\xa0y", "x\x1f, y\x85", ",a", "a b,c d"] + GM.TEXTS)]
+
+
+def _g_parse_project_urls(rng):
+    pool = ["Home, https://example.com", "Docs,https://d", "Home,other", "nocomma", "", ",", " , ", "a,b,c", " Home ,  u ",
+            "\u2003L\u2003,\xa0u", "x", "x,", ",y"]
+    return [[rng.choice(pool) for _ in range(rng.choice([0, 1, 2, 2, 3, 4]))]]
+
+
 MARKER_ORACLES = ["canonicalize_name", "Specifier", "Specifier.contains", "default_environment"]
 
 
@@ -893,11 +1024,18 @@ FUNCS.update({
     "process_env_var": ("packaging._parser", "process_env_var", _g_process_env_var),
     "process_python_str": ("packaging._parser", "process_python_str", _g_process_python_str),
 })
+FUNCS["_parse_keywords"] = ("packaging.metadata", "_parse_keywords", _g_parse_keywords)
+FUNCS["_parse_project_urls"] = ("packaging.metadata", "_parse_project_urls", _g_parse_project_urls)
+VALIDATOR_FIELDS = ["metadata_version", "name", "version", "summary", "dynamic", "provides_extra", "requires_python",
+                    "requires_dist", "license_expression", "license_files"]
+for _fld in VALIDATOR_FIELDS:
+    FUNCS["_Validator._process_" + _fld] = ("packaging.metadata", "_Validator._process_" + _fld, _g_validator(_fld))
 FUNCS["canonicalize_license_expression"] = ("packaging.licenses", "canonicalize_license_expression", _g_license)
 # functions over a shared tokenizer: the answer is the result together with the tokenizer afterwards
 STATE_FUNCS = set(PARSER_FUNCS)
 # functions whose first wire argument is the oracle table (the real function runs against the real callees)
 EXT_FUNCS = {"_normalize_extra_values", "_eval_op", "_normalize", "_evaluate_markers", "Marker.evaluate"}
+EXT_FUNCS |= {"_Validator._process_" + f for f in VALIDATOR_FIELDS if f not in ("metadata_version", "summary")}
 # functions run with `hash` replaced by a symbolic stand-in in their module (see PyRt.hash_sym)
 SYM_HASH_FUNCS = {"Marker.__hash__": "packaging.markers"}
 
@@ -921,13 +1059,11 @@ class _Src:
             f = _resolve(mod, path)
         except Exception as e:
             return "gone " + type(e).__name__
-        vals = [dec_val(a) for a in args[1:]]
+        vals = [dec_val(a) for a in (args[2:] if name in EXT_FUNCS else args[1:])]     # the oracle table is not decoded
         undo = None
         if name in ENV_FUNCS:
             env = vals.pop(0)
             undo = _apply_env([(k, (list(v) if k == "platform_tags" else v)) for k, v in env])
-        if name in EXT_FUNCS:
-            vals.pop(0)                        # x3: the oracle table is for the translated side only
         if name in SYM_HASH_FUNCS:
             m_ = importlib.import_module(SYM_HASH_FUNCS[name])
             m_.hash = lambda v: ("__hash__", v)
